@@ -284,6 +284,26 @@ def run(cx):
                 cx.check('C13.G5', bool(re.search(rx, flds.get(k, ''))), sg.path, 'field:' + k, 'verifier-initial-state:' + k, flds.get(k, 'missing')[:200], loc)
 
     # ---------------------------------------------------------------- N1 argument names agree with the parameters they are bound to (engine/argnames.py)
+    # ---------------------------------------------------------------- G6 UDP client: a reply that does not verify ends the request
+    # UdpRequest::send examines up to three datagrams; wrong source / id / question are skipped (they may be spoofed), but once a
+    # datagram has passed those tests its TSIG decides: a verification failure is returned as the error and never leads back to the
+    # receive (the next datagram would be judged by a verifier that is spent, or by none at all), and the verifier is not taken out
+    # of its slot before the decision
+    us = cx.fn('C13.G6', '<hickory_net::udp::udp_client_stream::UdpRequest<P> as hickory_net::udp::udp_client_stream::Request>::send::{closure#0}')
+    if us:
+        vf = cx.calls(us, r'TSigVerifier::verify$')
+        cx.check('C13.G6', len(vf) == 1, us.path, 'calls', 'single-verify-site', str(len(vf)))
+        fail = [s_ for bb in range(len(us.blocks)) for s_, ps in us.edge_props(bb).items() if any(re.search(r'^!ok\(TSigVerifier::verify\(', shorten(p_)) for p_ in ps)]
+        cx.check('C13.G6', len(fail) >= 1, us.path, 'edges', 'verification-failure-edge-present', str(len(fail)))
+        after = cx.reachable_from(us, fail) if fail else set()
+        rcv = cx.calls(us, r'DnsUdpSocket::recv_from$')
+        cx.check('C13.G6', bool(rcv) and not any(r_.bb in after for r_ in rcv), us.path, 'path', 'verification-failure-ends-the-request(no further datagram is accepted)',
+                 'a datagram is received after a TSIG verification failure' if any(r_.bb in after for r_ in rcv) else '', vf[0].loc if vf else '')
+        errs = [r_ for r_ in cx.returns(us, r'.') if r_.bb in after and not re.search(r'^Result::Ok\(', r_.term)]
+        oks_ = [r_ for r_ in cx.returns(us, r'^Result::Ok\(') if r_.bb in after]
+        cx.check('C13.G6', len(errs) >= 1 and not oks_, us.path, 'ret', 'verification-failure-is-returned-as-an-error', f'{len(errs)} error returns, {len(oks_)} Ok returns after a failed verification')
+        tk = [c_ for c_ in cx.calls(us, r'Option<T>::take$|Option::take$|mem::take$|mem::replace$') if re.search(r'Message::finalize\(', c_.term)]
+        cx.check('C13.G6', not tk, us.path, 'calls', 'verifier-not-taken-out-of-its-slot', '; '.join(c_.term[:100] for c_ in tk), tk[0].loc if tk else '')
     argnames.check(cx, 'C13.N1', r'hickory_server::store::sqlite|hickory_proto::rr::tsig|hickory_proto::rr::rdata::tsig|hickory_net::xfer::dns_multiplexer', floor=60)
     argnames.check_fields(cx, 'C13.N1', r'hickory_server::store::sqlite|hickory_proto::rr::tsig|hickory_proto::rr::rdata::tsig|hickory_net::xfer::dns_multiplexer', floor=36)
 
